@@ -53,6 +53,24 @@ T = {
  "C04-r2m2": ("idr/jsonreader.go: rejected array elements that are containers are emptied but left linked", "filtered target whose candidates are container elements spread over two or more arrays, a rejected one in an earlier array"),
  "C07-r2m1": ("edi/reader.go rawSegToNode: element scan resumes at the previous declaration's match", "component delimiter configured and two components of one element declared with the higher component_index first"),
  "C07-r2m2": ("edi/reader2.go: ignore_crlf strips CR/LF only at the beginning of each segment token", "ignore_crlf and a CR/LF that is not directly behind a segment delimiter"),
+ "C08-r2m1": ("customfuncs.go CopyFunc: leaf fast path returns the single text child's raw string", "copy applied to a non-string JSON scalar (number, boolean, null)"),
+ "C08-r2m2": ("idr/xmlreader.go addTextChild returns early on empty text", "an attribute with an empty value or an empty CDATA section"),
+ "C10-r2m1": ("fixedlength2 reader.go readLine: copy of the last retained line skipped when a newline is already buffered", "envelope of >= 3 lines (or 2 with an empty line between), the 4096-byte buffer boundary in its 3rd-or-later line, >= 4 KB of input after it"),
+ "C10-r2m2": ("ingester.go + parse.go: one parseCtx reused across records, its cache reset only after a successful record", "a failed record directly followed by another, and a declaration evaluated on a surviving ancestor (xpath '..') whose value differs between the two"),
+ "C11-r2m1": ("idr/navigator.go MoveTo refuses to leave an attribute node", "a predicate on an attribute step with more than one candidate (//item/@id[. != 'a'])"),
+ "C11-r2m2": ("idr/query.go MatchAll fast path for a bare child name matches on the local name only", "MatchAll with a bare-name expression and a child element carrying a namespace prefix"),
+ "C12-r2m1": ("idr/node.go newNodeID: atomic add followed by a separate atomic load", "node acquisitions racing on several goroutines (two read back the same counter value)"),
+ "C12-r2m2": ("idr/jsonreader.go releases the root at io.EOF (although a rejected root candidate was released already)", "JSON target xpath selecting the document root itself with a filter that rejects it"),
+ "C15-r2m1": ("validate.go validateObject sorts children by the last namelet of the fqdn only", "sibling object keys containing dots that share their last part, both failing on one record, schema loaded more than once (map iteration order decides the error text)"),
+ "C15-r2m2": ("parse.go parseExternal memoises the typed external value in the Schema's declaration", "a typed external (int/float/boolean), ONE Schema object used for two transforms with different property values"),
+ "C17-r2m1": ("idr/xmlreader.go keeps a lone attribute-vs-literal filter in the candidate xpath", "XML, exactly one last-step filter of the form [@a='x'] and records that fail it: they are never candidates, so never removed"),
+ "C17-r2m2": ("flatfile hierarchyReader.go: Release hardened to ignore non-target nodes + reject branch calling Release", "csv2 / fixedlength2 with a FINAL_OUTPUT xpath filter and records that fail it"),
+ "C18-r2m1": ("schema.go: BOM stripped before the declared encoding is decoded", "iso-8859-1 / windows-1252 input whose first three bytes are EF BB BF (content there, not a BOM)"),
+ "C18-r2m2": ("header.go: hand-written iso-8859-1 transformer advancing nSrc past bytes it could not copy", "iso-8859-1, a byte >= 0x80 in a 4096-byte block and the 4096-byte output boundary inside an ASCII run"),
+ "C19-r2m1": ("customfuncs/datetime.go: zone bonding by 'convert then subtract the offset' (offset taken at the wrong instant)", "zone-less input with fromTZ in a zone with offset changes, wall clock within |offset| hours of a transition"),
+ "C19-r2m2": ("customfuncs/datetime.go EpochToDateTimeRFC3339: MILLISECOND split simplified to n/1000 (truncates toward zero)", "MILLISECOND unit, an instant before 1970 with a non-zero millisecond part"),
+ "C20-r2m1": ("javascript.go: result check rewritten with math.IsInf(f, 1)", "a script whose result is exactly negative infinity (-1/0, Math.log(0))"),
+ "C20-r2m2": ("javascript.go: cleanup skips _node", "a javascript_with_context call followed, on the same pooled VM, by a call without a node whose script mentions _node"),
  "C02-r2m1": ("value.go normalizeAndSaveValue: a declared type makes keep_empty_or_null forget a null result", "a field with both type and keep_empty_or_null whose value is null / absent"),
  "C02-r2m2": ("invokeCustomFunc.go: ignore_error hands back the failed function's return value instead of null", "custom_func with ignore_error whose function fails while returning a non-nil first value, with keep_empty_or_null"),
  "C05-r2m1": ("flatfile hierarchyReader.go: EOF unwind loops recNext before looking at the target", "last target instance closed by end of input AND a later minimum in the same unwind unmet (csv2 / fixedlength2)"),
